@@ -22,6 +22,9 @@ def writeAt (f : Bytes) (off : Nat) (b : Bytes) : Bytes :=
 def readAt (f : Bytes) (off len : Nat) : Option Bytes :=
   if off + len ≤ f.length then some (slice f off len) else none
 
+/-- `File::set_len(n)` on a regular file: truncate, or extend with zeros. -/
+def setLen (f : Bytes) (n : Nat) : Bytes := f.take n ++ List.replicate (n - f.length) 0
+
 /-- `CloneOutput { inner, clone_index }` plus the I/O log. -/
 structure OutSt (κ : Type) where
   file : Bytes
